@@ -68,7 +68,7 @@ for _n in DOCUMENTED_MATH:
         _table_ensures.append(("real_valued[%s]" % _key, "field(functions_to_replace['%s'].cpp_return_type, '_type') == 'double'" % _key))
 
 contract(CF + "<module>", props=["C12"], params={}, replay="math_table",
-         modifies=["global:" + CF + "functions_to_replace"],
+         modifies=["global:" + CF + "functions_to_replace", "alloc"],
          ensures=[("documentation_found", "%d >= 40" % len(DOCUMENTED_MATH))] + _table_ensures)
 
 # ---- call-site replacement (find_known_functions.visit_Call) ------------------------------------------------------
